@@ -28,6 +28,8 @@ concretely.  numpy itself is a *model table* in this file:
   np.dot(a, b)                   splits on "inner dimensions agree" -> value | ValueError
   np.linalg.matrix_power(a, k)   value | LinAlgError('Singular matrix') | TypeError
   numpy scalar on the left       bypasses MathArray's reflected methods (NPLEFT leaf)
+  a[...] = v / a[:] = v          whole-array store: v is broadcast into a's shape and cast to a's entry type (STORE leaf;
+                                 the value identity becomes stored_with_entry_type_of(a, v), which no table row expects)
 
 Each run is deterministic (descriptors are fully specified), so an outcome is exact with
 respect to the model.  Unsupported constructs raise AnalysisError (exit 2), never a verdict.
@@ -658,6 +660,26 @@ class Interp(object):
                 raise AnalysisError('cannot unpack `%s`' % short(target))
             for t, x in zip(target.elts, v):
                 self.assign(t, x, env, fi)
+        elif isinstance(target, ast.Subscript) and isinstance(target.value, ast.Name) and isinstance(env.get(target.value.id), Arr):
+            # whole-array store  a[...] = v  /  a[:] = v : numpy broadcasts v into a's shape and CASTS it to a's entry type
+            sl = target.slice
+            whole = (isinstance(sl, ast.Constant) and sl.value is Ellipsis) or \
+                    (isinstance(sl, ast.Slice) and sl.lower is None and sl.upper is None and sl.step is None)
+            if not whole:
+                raise AnalysisError('element store `%s` is outside the shape interpreter' % short(target))
+            a = env[target.value.id]
+            v = self.lift(v)
+            if isinstance(v, Arr):
+                if dims_broadcast(a.shape, v.shape) != a.shape:
+                    raise Raised(self.builtin_exc('ValueError', 'could not broadcast input array into the shape of the target', target))
+                src = lf_frozen(v.val)
+            elif isinstance(v, N):
+                src = ('number', _round(v.v))
+            else:
+                raise Raised(self.builtin_exc('TypeError', 'cannot store a foreign object into an array', target))
+            self.trace.add('STORE', arr=a, value=v, node=target)
+            env[target.value.id] = Arr(a.shape, lf_atom(('stored_with_entry_type_of', lf_frozen(a.val), src)),
+                                       N(7.0) if a.size1 else None, False)
         else:
             raise AnalysisError('assignment to `%s` is outside the shape interpreter' % short(target))
 
